@@ -28,7 +28,7 @@ echo "== 4. check $prop (quick)"
 q=$(cd /verif && VERIF_REPO="$wt" ./check "$prop" --tier quick 2>&1); qrc=$?
 echo "$q" | grep -E "VIOLATION|fingerprint|$prop:|BUILD-FAILED" | cut -c1-260 | head -6; echo "rc=$qrc"
 trc="-"
-if [ $qrc -eq 0 ]; then
+if [ $qrc -eq 0 ] && [ -z "${SEEDCONFIRM_NO_THOROUGH:-}" ]; then
   echo "== 4b. check $prop (thorough)"
   t=$(cd /verif && VERIF_REPO="$wt" ./check "$prop" --tier thorough 2>&1); trc=$?
   echo "$t" | grep -E "VIOLATION|fingerprint|$prop:|BUILD-FAILED" | cut -c1-260 | head -6; echo "rc=$trc"
